@@ -24,6 +24,9 @@ fn full_vocab() -> Vec<String> {
     let extra = [
         "\\par", "\\undefined", "\\a", "~", "{", "}", "#", "$", "&", "^", "_", "%", " ", "\n", "=", "-", "+", "`", "'", "\"", ".", ":", "<", "a", "f", "p", "t", "é", "by", "to", "pt", "fil", "plus", "true", "0", "1", "15", "16", "255", "256", "32767", "32768",
         "55296", "1114111", "1114112", "2147483647", "2147483648", "-1", "^^M", "^^@", "\u{7f}", "1pt", "#1",
+        // numbers whose length is the hazard: 17 / 18 / 19 / 30 fraction digits, 21 integer digits,
+        // octal and hexadecimal constants at and beyond 2^31-1
+        "1.12345678901234567", "1.123456789012345678", ".9999999999999999999pt", "0.123456789012345678901234567890", "100000000000000000000", "'17777777777", "'20000000000", "'777777777777", "\"7FFFFFFF", "\"80000000", "\"FFFFFFFFF",
     ];
     names.extend(extra.iter().map(|s| s.to_string()));
     names
@@ -32,7 +35,7 @@ fn full_vocab() -> Vec<String> {
 fn core_vocab() -> Vec<String> {
     [
         "\\count", "\\dimen", "\\skip", "\\toks", "\\the", "\\def", "\\let", "\\global", "\\advance", "\\multiply", "\\divide", "\\catcode", "\\chardef", "\\countdef", "\\ifnum", "\\ifcase", "\\else", "\\fi", "\\or", "\\expandafter", "\\noexpand",
-        "\\read", "\\input", "\\openin", "\\ifeof", "\\endinput", "\\a", "{", "}", "#", "1", "-", "=", " ", "2147483647", "f", "by", "to", "pt", "é",
+        "\\read", "\\input", "\\openin", "\\ifeof", "\\endinput", "\\a", "{", "}", "#", "1", "-", "=", " ", "2147483647", "f", "by", "to", "pt", "é", "1.123456789012345678", "-2147483647",
     ]
     .iter()
     .map(|s| s.to_string())
@@ -52,6 +55,108 @@ fn resource_programs() -> Vec<String> {
         format!("\\def\\a{{{}}}\\a", "#".repeat(2) + &"x".repeat(50_000)),
         format!("{}\\fi", "\\iftrue".repeat(20000)),
     ]
+}
+/// Product family: drive one register (a \\count, a \\dimen, or one component of a \\skip) to exactly
+/// -2^31 or 2^31-1 by \\advance wrap-around, then apply one arithmetic primitive with one operand of
+/// {-1, 0, 1, 2, 2^31-1, -2^31 (from another register)}, or use the register in one coercion context.
+fn extreme_programs() -> Vec<String> {
+    let min_count = |r: u32| format!(r"\count {r}=-2147483647 \advance\count {r} by -1 ");
+    let wrap = |kind: &str, r: u32, comp: &str, neg: bool| -> String {
+        // comp: "" (width / the dimension itself), "plus", "minus"
+        let (a, b) = if neg { ("-1073741823sp", "-2sp") } else { ("1073741823sp", "1sp") };
+        let w = |v: &str| if comp.is_empty() { v.to_string() } else { format!("0pt {comp} {v}") };
+        format!(r"\{kind} {r}={} \advance\{kind} {r} by {} \advance\{kind} {r} by {} ", w(a), w(a), w(b))
+    };
+    // (kind of register 1, setup text)
+    let mut targets: Vec<(&str, String)> = vec![];
+    for neg in [true, false] {
+        targets.push(("count", if neg { min_count(1) } else { r"\count 1=2147483647 ".to_string() }));
+        targets.push(("dimen", wrap("dimen", 1, "", neg)));
+        targets.push(("skip", wrap("skip", 1, "", neg)));
+        targets.push(("skip", wrap("skip", 1, "plus", neg)));
+        targets.push(("skip", wrap("skip", 1, "minus", neg)));
+    }
+    let mut out = vec![];
+    for (kind, setup) in &targets {
+        let x = format!(r"\{kind} 1 ");
+        // arithmetic primitives on the register itself
+        let int_operands: Vec<(String, String)> = vec![
+            (String::new(), "-1 ".into()),
+            (String::new(), "0 ".into()),
+            (String::new(), "1 ".into()),
+            (String::new(), "2 ".into()),
+            (String::new(), "2147483647 ".into()),
+            (min_count(2), r"\count 2 ".into()),
+        ];
+        for op in ["multiply", "divide"] {
+            for (pre, operand) in &int_operands {
+                out.push(format!(r"{setup}{pre}\{op}{x}by {operand}\the{x}"));
+            }
+        }
+        let same: Vec<(String, String)> = match *kind {
+            "count" => int_operands.clone(),
+            "dimen" => vec![
+                (String::new(), "-1sp ".into()),
+                (String::new(), "0sp ".into()),
+                (String::new(), "1sp ".into()),
+                (String::new(), "2sp ".into()),
+                (String::new(), "1073741823sp ".into()),
+                (wrap("dimen", 2, "", true), r"\dimen 2 ".into()),
+                (wrap("dimen", 2, "", false), r"-\dimen 2 ".into()),
+                (min_count(2), r"\count 2 sp ".into()),
+            ],
+            _ => vec![
+                (String::new(), "-1sp plus -1sp minus -1sp ".into()),
+                (String::new(), "0sp ".into()),
+                (String::new(), "1sp plus 1sp minus 1sp ".into()),
+                (String::new(), "1073741823sp plus 1073741823sp minus 1073741823sp ".into()),
+                (String::new(), "1sp plus 2fil minus -1fill ".into()),
+                (wrap("skip", 2, "", true), r"\skip 2 ".into()),
+                (wrap("skip", 2, "plus", true), r"-\skip 2 ".into()),
+                (wrap("dimen", 2, "", true), r"\dimen 2 plus \dimen 2 minus \dimen 2 ".into()),
+            ],
+        };
+        for (pre, operand) in &same {
+            out.push(format!(r"{setup}{pre}\advance{x}by {operand}\the{x}"));
+        }
+        // coercion contexts that read the register
+        let unit = if *kind == "count" { "sp " } else { "" };
+        let fil = if *kind == "count" { "fil " } else { "" };
+        for ctx in [
+            format!(r"\count 0={x}"),
+            format!(r"\count 0=-{x}"),
+            format!(r"\dimen 0={x}{unit}"),
+            format!(r"\dimen 0=-{x}{unit}"),
+            format!(r"\dimen 0=.5{x}"),
+            format!(r"\dimen 0=2{x}"),
+            format!(r"\dimen 0=-1.5{x}"),
+            format!(r"\dimen 0=1.123456789012345678{x}"),
+            format!(r"\dimen 0={x}pt "),
+            format!(r"\skip 0={x}{unit}"),
+            format!(r"\skip 0=-{x}{unit}"),
+            format!(r"\skip 0=1pt plus {x}{fil}minus -{x}{fil}"),
+            format!(r"\skip 0=1pt plus 2{x}minus .5{x}"),
+            format!(r"\ifnum{x}<0 a\else b\fi "),
+            format!(r"\ifnum 0>-{x}a\fi "),
+            format!(r"\ifodd{x}a\fi "),
+            format!(r"\ifcase{x}a\or b\else c\fi "),
+            format!(r"\the{x}"),
+            format!(r"\catcode{x}=11 "),
+            format!(r"\count{x}=1 "),
+            format!(r"\chardef\c={x}"),
+            format!(r"\count 0=5 \multiply\count 0 by {x}\the\count 0 "),
+            format!(r"\count 0=-5 \divide\count 0 by {x}\the\count 0 "),
+            format!(r"\dimen 0=1pt \multiply\dimen 0 by {x}\the\dimen 0 "),
+            format!(r"\dimen 0=-1pt \divide\dimen 0 by {x}\the\dimen 0 "),
+            format!(r"\skip 0=1pt plus 1fil minus 1pt \multiply\skip 0 by {x}\divide\skip 0 by {x}\the\skip 0 "),
+            format!(r"\dimen 0=1pt \advance\dimen 0 by {x}{unit}\the\dimen 0 "),
+            format!(r"\advance\count 0 by {x}\advance\skip 0 by {x}{unit}\the\skip 0 "),
+            format!(r"{{\global\advance{x}by {x}}}\the{x}"),
+        ] {
+            out.push(format!("{setup}{ctx}"));
+        }
+    }
+    out
 }
 fn mini_vocab() -> Vec<String> {
     ["\\the", "\\def", "\\a", "{", "}", "#", "1", "-", "2147483647", "é", "\\fi", "\\read"].iter().map(|s| s.to_string()).collect()
@@ -165,6 +270,9 @@ struct Families {
     short_full_len: u32,
     short_core_len: u32,
     resource: Vec<String>,
+    extreme: Vec<Vec<String>>,
+    extreme_cum: Vec<u64>,
+    extreme_vocab: Vec<String>,
 }
 impl Families {
     fn new(quick: bool) -> Families {
@@ -182,7 +290,13 @@ impl Families {
             let d = Self::n_dev(n, mini.len() as u64);
             dev2_cum.push(dev2_cum.last().unwrap() + d * d);
         }
-        Families { full, core, mini, seeds, dev1_cum, dev1_vocab, dev2_cum, short_full_len: if quick { 2 } else { 3 }, short_core_len: if quick { 3 } else { 4 }, resource: resource_programs() }
+        let extreme: Vec<Vec<String>> = extreme_programs().iter().map(|s| chunks(s)).collect();
+        let extreme_vocab: Vec<String> = if quick { ["-", "0", "2147483647", "\\the"].iter().map(|s| s.to_string()).collect() } else { core.clone() };
+        let mut extreme_cum = vec![0u64];
+        for e in &extreme {
+            extreme_cum.push(extreme_cum.last().unwrap() + Self::n_dev(e.len() as u64, extreme_vocab.len() as u64));
+        }
+        Families { extreme, extreme_cum, extreme_vocab, full, core, mini, seeds, dev1_cum, dev1_vocab, dev2_cum, short_full_len: if quick { 2 } else { 3 }, short_core_len: if quick { 3 } else { 4 }, resource: resource_programs() }
     }
     fn n_dev(n: u64, k: u64) -> u64 {
         n + n * k + (n + 1) * k
@@ -212,6 +326,8 @@ impl Families {
             "seed-dev1" => self.dev1_cum.last().unwrap() * 4,
             "seed-dev2" => *self.dev2_cum.last().unwrap(),
             "resource" => self.resource.len() as u64 * 4,
+            "extreme-arith" => self.extreme.len() as u64 * 4,
+            "extreme-arith-dev1" => *self.extreme_cum.last().unwrap(),
             _ => 0,
         }
     }
@@ -240,6 +356,15 @@ impl Families {
                 (mode, join(&chs))
             }
             "resource" => ((idx % 4) as usize, self.resource[(idx / 4) as usize].clone()),
+            "extreme-arith" => ((idx % 4) as usize, join(&self.extreme[(idx / 4) as usize])),
+            "extreme-arith-dev1" => {
+                let e = match self.extreme_cum.binary_search(&idx) {
+                    Ok(i) => i,
+                    Err(i) => i - 1,
+                };
+                let chs = Self::deviate(&self.extreme[e], &self.extreme_vocab, idx - self.extreme_cum[e]).expect("deviation index");
+                (1, join(&chs))
+            }
             "seed-dev2" => {
                 let s = match self.dev2_cum.binary_search(&idx) {
                     Ok(i) => i,
@@ -260,9 +385,8 @@ impl Families {
 // ------------------------------------------------------------------ one case (worker side)
 
 /// Panic sites that are planned to stay (DESIGN §4.1, D8): (finding id, file suffix, text of the source line).
-const KNOWN_SITES: [(&str, &str, &str); 4] = [
+const KNOWN_SITES: [(&str, &str, &str); 3] = [
     ("D8-the-non-variable", "texlang-stdlib/src/the.rs", "todo!(\"should return an error\")"),
-    ("D8-disabled-terminal-read", "texlang-stdlib/src/errormode.rs", "todo!()"),
     ("D8-file-area", "texlang/src/parse/filelocation.rs", "panic!(\"Texlang does not have support for file areas yet\");"),
     ("D8-font-variable-as-number", "texlang/src/parse/integer.rs", "todo!(\"scan a font into an int?\");"),
 ];
@@ -792,6 +916,8 @@ fn main() {
     run_family(&mut ctx, &fams, "short-full", &format!("every string of <= {} tokens over the full vocabulary ({nf} tokens: every installed primitive, braces, specials, numbers at every limit, non-ASCII) x 4 interaction modes", fams.short_full_len));
     run_family(&mut ctx, &fams, "short-core", &format!("every string of <= {} tokens over a {nc}-token core (registers, \\the, definitions, conditionals, \\expandafter, \\read/\\input) x 4 interaction modes", fams.short_core_len));
     run_family(&mut ctx, &fams, "seed-dev1", &format!("{} seeds (the repository's all_error_cases + 32 idioms), unchanged and with every single deletion / substitution / insertion of a token from a {}-token vocabulary at every position, x 4 interaction modes", fams.seeds.len(), fams.dev1_vocab.len()));
+    run_family(&mut ctx, &fams, "extreme-arith", &format!("{} programs x 4 interaction modes: a \\count, a \\dimen, and the width / stretch / shrink of a \\skip driven to exactly -2^31 and to 2^31-1 by \\advance wrap-around, then every arithmetic primitive with each operand of -1, 0, 1, 2, 2^31-1, -2^31 (from another register), and 29 coercion contexts (assignments with signs, fractions and units, glue components, conditionals, \\the, register indices, operands of \\advance/\\multiply/\\divide on other registers)", fams.extreme.len()));
+    run_family(&mut ctx, &fams, "extreme-arith-dev1", &format!("the same {} programs with every single deletion / substitution / insertion of a token from a {}-token vocabulary at every position, scroll mode", fams.extreme.len(), fams.extreme_vocab.len()));
     run_family(&mut ctx, &fams, "resource", &format!("{} fixed programs x 4 interaction modes: an 8.6 GB \\newIntArray, runaway recursion (doubling, nested groups), 20000 nested groups / \\expandafter / \\iftrue, a 100000-character line, a 5000-digit number, a 50000-token macro body", fams.resource.len()));
     if !ctx.quick() {
         run_family(&mut ctx, &fams, "seed-dev2", &format!("the same seeds with every pair of deviations over a {}-token vocabulary, scroll mode", fams.mini.len()));
